@@ -51,6 +51,24 @@ Theorem accepted_is_prefix :
 Proof. exact accepted_is_prefix_l. Qed.
 Print Assumptions accepted_is_prefix.
 
+(* exactly which: a writer failing its (k+1)-th call accepted the first k Write calls of the
+   fault-free render, a writer of capacity b its first b bytes *)
+Theorem accepted_exact_calls :
+  forall cf fuel name id data fid k,
+    refuses (Some k) None (rr_writes (render cf fuel name id data None None fid)) ->
+    rr_writes (render cf fuel name id data (Some k) None fid) =
+    firstn k (rr_writes (render cf fuel name id data None None fid)).
+Proof. exact accepted_exact_calls_l. Qed.
+Print Assumptions accepted_exact_calls.
+
+Theorem accepted_exact_bytes :
+  forall cf fuel name id data fid b,
+    refuses None (Some b) (rr_writes (render cf fuel name id data None None fid)) ->
+    accepted (render cf fuel name id data None (Some b) fid) =
+    take (N.to_nat b) (accepted (render cf fuel name id data None None fid)).
+Proof. exact accepted_exact_bytes_l. Qed.
+Print Assumptions accepted_exact_bytes.
+
 (* a nil error means every Write call of the fault-free render was made and accepted *)
 Theorem nil_means_all_written :
   forall cf fuel name id data fid cl bl,
